@@ -189,6 +189,11 @@ def run_op(o, events):
                 for u in urls:
                     got = [sh.cssText for sh in reused.capture(u)]
                 fresh = [sh.cssText for sh in CSSCapture(defaultloglevel=logging.FATAL).capture(urls[-1])]
+                # saving what was captured (plain or minified) is a matter of that call
+                state = global_state()
+                reused.saveto(os.path.join(work, 'out'), minified=bool(len(o[1]) % 2))
+                if global_state() != state:
+                    raise Leak(f'state:serializer-preferences:after-saveto|CSSCapture.saveto(minified={bool(len(o[1]) % 2)}) changed the library-wide state')
         finally:
             shutil.rmtree(work, ignore_errors=True)
         if got != fresh:
